@@ -48,6 +48,26 @@ T = {
     "pair (or filter over pair) whose receiving end is not pulling (EV_READ disabled / suspended), bytes queued, sender calls bufferevent_flush(EV_WRITE, BEV_FINISHED)"),
  "C17-sock-zero-length-read-eof": ("C17", "/tmp/adv_C17", "demo/patch2.diff", "demo/run.sh demo2", ["C17", "C18"],
     "socket bufferevent with exactly N bytes buffered, bufferevent_setwatermark(EV_READ, low, N), then more data arrives (two cooperating sites)"),
+ "C08-file-segment-materialize-error-keeps-lock": ("C08", "/tmp/adv_C08", "demo/patch.diff", "demo/run.sh 1", ["C08"],
+    "locking enabled; lazily materialised file segment added to a plain evbuffer; materialisation fails (unreadable/closed fd, ENOMEM)"),
+ "C08-select-dispatch-error-returns-unlocked": ("C08", "/tmp/adv_C08", "demo/patch2.diff", "demo/run.sh 2", ["C08"],
+    "locking enabled, select backend, select() failing with an error other than EINTR (fd closed while its event is added)"),
+ "C16-write-sendfile-dispatch-wrong-flag": ("C16", "/tmp/adv_C16", "demo/patch.diff", "demo/run.sh", ["C16", "C15"],
+    "first chain a non-sendfile file segment starting at a non-zero file offset, written with evbuffer_write"),
+ "C16-read-exact-fill-last-with-datap": ("C16", "/tmp/adv_C16", "demo/patch2.diff", "demo/run.sh", ["C16", "C12"],
+    "evbuffer_read that exactly fills the last iovec's chain, then a drain of more than half of the previous chain, then a small add"),
+ "C44-disable-and-free-in-callback": ("C44", "/tmp/adv_C44", "demo/patch.diff", "demo/run.sh", ["C44"],
+    "accept callback calls both evconnlistener_disable and evconnlistener_free (LEV_OPT_CLOSE_ON_FREE)"),
+ "C44-cb-read-once-per-pass": ("C44", "/tmp/adv_C44", "demo/patch2.diff", "demo/run.sh demo2", ["C44"],
+    ">=2 connections queued in one wake-up and evconnlistener_set_cb called from the callback of an earlier one"),
+ "C12-add-printf-exact-fit": ("C12", "/tmp/adv_C12", "demo/patch.diff", "demo/run.sh demo", ["C12"],
+    "evbuffer_add_printf whose formatted length equals the free space of the chain exactly"),
+ "C12-prepend-buffer-last-with-datap": ("C12", "/tmp/adv_C12", "demo/patch2.diff", "demo/run.sh demo2", ["C12"],
+    "prepend_buffer of a multi-chain source onto a single-chain destination, then an add"),
+ "C13-counters-cleared-after-callbacks": ("C13", "/tmp/adv_C13", "demo/patch.diff", "demo/run.sh", ["C13"],
+    "a callback that modifies the evbuffer it is registered on (immediate: change reported twice; deferred: change lost)"),
+ "C13-remove-buffer-relinked-not-reported": ("C13", "/tmp/adv_C13", "demo/patch2.diff", "demo/run.sh", ["C13", "C12"],
+    "remove_buffer from a multi-chain source covering at least its first chain but not all of it, with a callback on the destination"),
  "C45-prepare-timeout-recomputed": ("C45", "/tmp/adv_C45", "demo/patch2.diff", "demo/run.sh", ["C45"],
     "a prepare watcher that adds/removes a timer or activates an event"),
 }
